@@ -302,9 +302,10 @@ func genChainWalk(r *rand.Rand, n int) []Step {
 		u := pick(r, users...)
 		switch r.Intn(34) {
 		case 31: // commitment's staking front end: uelys delegated to the validator, Eden / EdenB committed
-			st = append(st, Step{"a": "stake", "u": u, "d": pick(r, "uelys", "uelys", "ueden", "uedenb"), "frac": pick(r, "one", "tiny", "third", "half")})
+			st = append(st, Step{"a": "stake", "u": u, "d": pick(r, "uelys", "uelys", "ueden", "uedenb", "uusdc", "amm/pool/2"), "frac": pick(r, "one", "tiny", "third", "half")})
 		case 32:
-			st = append(st, Step{"a": "unstake", "u": u, "d": pick(r, "uelys", "uelys", "ueden", "uedenb"), "frac": pick(r, "one", "third", "half", "all")})
+			// (the message accepts any denom: pool shares and vault shares are asked for too - only Elys, Eden and EdenB may come out)
+			st = append(st, Step{"a": "unstake", "u": pick(r, u, u, "u1"), "d": pick(r, "uelys", "uelys", "ueden", "uedenb", "amm/pool/1", "amm/pool/2", "stablestake/share"), "frac": pick(r, "one", "third", "half", "all")})
 		case 33:
 			if r.Intn(3) == 0 {
 				st = append(st, Step{"a": "setPortfolio", "u": u, "of": pick(r, users...)})
